@@ -132,7 +132,7 @@ def gen_xpx():
              "inter_keep_found": inter_keep_found, "lead_excl_self": lead_excl_self, "dirs": dirs}
     b = lambda v: "true" if v else "false"
     text = HEADER + "\n".join([
-        "From Coq Require Import List NArith Bool.", "Import ListNotations.", "Open Scope N_scope.", "",
+        "From Coq Require Import List NArith Bool.", "Import ListNotations.", "",
         "(* PlatformSupport/StringTokenizer.cpp s_defaultTokens: what id() splits its argument on *)",
         "Definition gen_id_delims : list N := %s." % _nlist(delims),
         "(* XalanEXSLTString.cpp: str:align keywords, str:padding default *)",
